@@ -134,11 +134,11 @@ package atree
 //@ pred canLendL(a *ArrayDataSlab, size int) = exists m :: 1 <= m && m <= len(a.elements) &&
 //@      sum(bs, a.elements, m) >= size && a.header.size - sum(bs, a.elements, m) >= minThreshold && sum(bs, a.elements, m - 1) < size
 
-//@ # to-right lending from the back of a: the suffix starting at m covers `size` and leaves a >= min; the suffix from m+1 does not cover it
-//@ pred canLendR(a *ArrayDataSlab, size int) = exists m :: 0 <= m && m < len(a.elements) &&
-//@      sum(bs, a.elements, len(a.elements)) - sum(bs, a.elements, m) >= size &&
-//@      a.header.size - (sum(bs, a.elements, len(a.elements)) - sum(bs, a.elements, m)) >= minThreshold &&
-//@      sum(bs, a.elements, len(a.elements)) - sum(bs, a.elements, m + 1) < size
+//@ # to-right lending from the back of a: the suffix starting at m-1 covers `size` and leaves a >= min; the suffix from m does not cover it
+//@ pred canLendR(a *ArrayDataSlab, size int) = exists m :: 1 <= m && m <= len(a.elements) &&
+//@      sum(bs, a.elements, len(a.elements)) - sum(bs, a.elements, m - 1) >= size &&
+//@      a.header.size - (sum(bs, a.elements, len(a.elements)) - sum(bs, a.elements, m - 1)) >= minThreshold &&
+//@      sum(bs, a.elements, len(a.elements)) - sum(bs, a.elements, m) < size
 
 //@ func (a *ArrayDataSlab) CanLendToLeft(size) (r)  serves C05
 //@   requires plainADS(a) && 1 <= size && size <= a.header.size
